@@ -5,4 +5,5 @@ CONSTANTS
   Flavours = {"map", "set"}
   EmptyEncs = {"empty", "nil"}
   Modes = {"full", "lazy"}
+  KeyAlphabets = {"trie", "nested"}
 INVARIANTS TypeOK ObsOK
